@@ -62,6 +62,10 @@ def main():
                    "nontrivial": False,
                    "why": "harness error: " + traceback.format_exc()[-1500:]}
         faulthandler.cancel_dump_traceback_later()
+        if res.get("verdict") == "violated" and "nbcache-" in str(res.get("why", "")):
+            # the JIT cache directory was disturbed from outside: infrastructure, not sigpy
+            res = {"verdict": "inconclusive", "sig": "jit-cache-io", "nontrivial": False,
+                   "why": "numba cache I/O error: " + str(res.get("why"))[:300]}
         res.setdefault("nontrivial", True)
         res.setdefault("sig", case["gen"])
         res["id"] = case["id"]
